@@ -1,5 +1,5 @@
 /*@harness
-{"tier":"quick","mode":"unbounded","tus":["src/comm.c"],"enforce":"comm.c:cmd_in_buf",
+{"tier":"quick","mode":"unbounded","tus":["src/comm.c"],"stub_out":["add_message","add_vmessage","flush_message"],"enforce":"comm.c:cmd_in_buf",
  "flags":["--bounds-check","--pointer-check"],"timeout":600,
  "expect":["cmd_in_buf.postcondition","cmd_in_buf.loop_invariant_step","cmd_in_buf.pointer_dereference"],
  "native":{}}
